@@ -65,6 +65,7 @@ type Exec struct {
 
 	// per-path state
 	globals    map[*ssa.Global]*Cell
+	syncMaps   map[*Cell]*MapV // contents of sync.Map values, by the cell holding the sync.Map struct
 	pc         []*Term
 	trail      []*Decision
 	pos        int
